@@ -309,4 +309,15 @@ def run(tier):
     ctx.sample({"history": hists[0], "observed": results[0]})
     ctx.sample({"history": hists[5], "observed": results[5]})
     ctx.log("histories: %d, %s" % (len(hists), stats))
+    # a failing execution persists its schedule whatever the earlier executions of the run did: executions that raised a panic
+    # and handled it themselves (catch_unwind, outside the program language) when their schedule had the same length
+    probes = ["probe caughtpanic 0", "probe caughtpanic 1", "probe caughtpanic 4"]
+    po = ctx.run_impl("prog", probes)
+    ctx.evaluations += len(probes)
+    for c_, o_ in zip(probes, po):
+        f_ = dict(x.split("=") for x in o_.split(" ")[1:] if "=" in x) if o_.startswith("PROBE") else {}
+        if f_.get("failed") != "1" or int(f_.get("files_during_failing_execution", "0")) < 1:
+            ctx.violation({"layer": "prog", "cases": [c_], "implementation_answer": o_[:300],
+                           "why": "execution %s of a run fails but no schedule is persisted for it, although the same execution persists one when it runs first: state of the failure report leaks from earlier executions (handled panics at the same schedule length)" % c_.split(" ")[-1]})
+    ctx.dist("probes.caughtpanic", len(probes))
     return ctx.finish()
